@@ -38,12 +38,18 @@ var runners = map[string]runner{
 	"C11": {"model_checking", conc.RunC11},
 	"C09": {"model_checking", streams.RunC09},
 	"C10": {"fault_enumeration", streams.RunC10},
-	"C06": {"model_checking", sesshist.RunC06},
+	"C06": {"model_checking", func(rep *report.Report, tier string) {
+		sesshist.RunC06(rep, tier)
+		streams.RunC06B(rep, tier, ribhist.Budget(tier, 100*time.Second, 20*time.Minute))
+	}},
 }
 
 // children are the shard entry points: vworker -child <property> <tier> <part> <dumpfile>
 var children = map[string]func(rep *report.Report, tier, part string){
 	"C11": conc.ChildC11,
+	"C06": streams.Child("C06"),
+	"C09": streams.Child("C09"),
+	"C10": streams.Child("C10"),
 }
 
 func main() {
